@@ -56,7 +56,7 @@ CHECKS["C03"] = ("model_checking",
     "DESIGN.md §3 C03")
 
 CHECKS["C14"] = ("model_checking",
-    "exhaustive enumeration of reference digraphs x kind assignments x reference forms, each program imported in a fresh process; oracle = graph reachability",
+    "exhaustive enumeration of reference digraphs x kind assignments x reference forms, each program imported in a fresh process; oracle = graph reachability; plus stateless exploration of all schedules (preemption-bounded) of two threads under the controlled scheduler",
     "Every digraph without self loops over N<=3 nodes (thorough: N=4 up to relabelling) with every assignment of kinds {memento auto, memento explicit, plain} and reference forms bare / module.attr / alias / decorator wrapper / inside a comprehension / inside a lambda / through functools.partial / module.attr assigned to a same-named local (all form assignments for N=2, covering rotations above) is rendered as a real module (graphs with 2-3 nodes additionally with the nodes spread over a module, the package __init__.py and a sibling module); for every memento node the reported transitive and direct dependencies and the dependency-graph links are compared with reachability, and every hidden dynamic call and every argument-passed call u=>v, directly and one real static call deeper (u->w=>v, including callees already on the call stack), through plain invocation and every modifier clone, must be refused exactly when v is outside the closure of the calling memento function. A name re-pointed between two memento functions in the running process (4 kind pairs): closure and run-time check before / after / back. Concurrent part: every schedule (1 preemption; thorough 2) of a thread inside an exempt or nested caller against a thread making a hidden or an ordinary top-level call.",
     "A function is never its own dependency (self entries and self links excluded); explicit-version callers are exempt from enforcement as documented; graphs beyond 4 nodes are not enumerated.",
     "DESIGN.md §3 C14")
@@ -98,7 +98,7 @@ CHECKS["C10"] = ("model_checking",
     "DESIGN.md §3 C10")
 
 CHECKS["C16"] = ("model_checking",
-    "bounded-exhaustive enumeration of call trees x per-edge context overrides x ordered pairs of root contexts run on one store x backends; oracle = reference propagation model",
+    "bounded-exhaustive enumeration of call trees x per-edge context overrides x ordered pairs of root contexts run on one store x backends; oracle = reference propagation model; plus stateless exploration of all schedules (preemption-bounded) of two threads under the controlled scheduler",
     "For the chain root->mid->leaf (all 9 assignments of {inherit, override with {}, override with {k:3}} to its edges) and the diamond root->{mid1,mid2}->leaf (27 quick / 81 thorough assignments), every ordered pair of root contexts from {none, {}, {k:1}, {k:2}, {k:1, j:function reference}} is run successively on one store (the root also invoked with force_local before / after the context arguments and through call_batch) (so each sub-call is met un-memoized and memoized under equal and under different effective contexts): returned values, which bodies run, that no body receives a context argument as parameter, and the context recorded in each call's memento must follow the model (own override replaces entirely, else the caller's). With further calls prevented at the root or at an inner call, the nested memento call must fail with RuntimeError and never run, whether or not its result is already memoized. Concurrent part: every schedule (1 preemption; thorough 2) of a chain under context arguments in one thread against calls without them in another; each call must be stored under exactly its own context arguments.",
     "Two tree shapes; contexts over two keys; local runner.",
     "DESIGN.md §3 C16")
@@ -109,7 +109,7 @@ CHECKS["C02"] = ("model_checking",
     "pandas values have <= 100 rows; equality is type-exact and NaN-aware; local runner.",
     "DESIGN.md §3 C02")
 CHECKS["C17"] = ("model_checking",
-    "bounded-exhaustive enumeration of partition merge chains x parent provenance x staging kinds x backends on the real codec/storage; oracle = dictionary overlay",
+    "bounded-exhaustive enumeration of partition merge chains x parent provenance x staging kinds x backends on the real codec/storage; oracle = dictionary overlay; plus stateless exploration of all schedules (preemption-bounded) of two threads under the controlled scheduler",
     "Chains of length 0..2 (quick) / 0..3 (thorough) of memento functions each returning a partition that declares the previous one as merge parent: own key sets per level from 5 subsets of {a,b,c} (values int / str / None / list / DataFrame depending on key and level), parent obtained by computing it in the nested call, by reading it back from disk after reopening, from the memory cache, or built in memory and never serialized (lowest levels; values must be right on every call whether or not the library stores the child), in-memory (also over a defaultdict) and on-disk staging in all-same and alternating patterns, chains whose levels are all stored under one shared key override, on filesystem, filesystem+cache and memory backends. The object returned by the first call, the object read back through a fresh backend, and every lower level of the chain afterwards must equal the overlay (own keys win, parent-only keys remain); the second call runs no body; get(k) of a read-back partition opens at most one data object. A function extending the partition returned by a memoized call (replace one entry, add one). Concurrent part: two threads memoizing partition results under every schedule (1 preemption; thorough 2), then everything read back through a fresh backend.",
     "Key alphabet of three; merge parents are set through the _merge_parent attribute as the library's own tests do.",
     "DESIGN.md §3 C17")
